@@ -165,7 +165,7 @@ def validate_runs(ctx, W, runs, label):
         judged += sum(1 for e in a if e["ev"] == "Contains")
         traces.append(a)
         kept.append(r)
-    acc, rej = vlib.validate_traces(ctx, "IPSet_Trace", cfgname, traces, label=label)
+    acc, rej = vlib.validate_traces(ctx, "IPSet_Trace", cfgname, traces, label=label, chunk=20000)
     for idx, info in rej:
         line = info.get("line_in_trace") or 0
         ctx.violation(trace_signature(traces[idx], line),
